@@ -31,6 +31,12 @@ round 4/5: must-raise / must-return / raise-or-well-formed edge stream (invalid 
          public caller of interpolate_p / bound_steps_check (stacking, stochastic_mixture, DempsterShafer.to_pbox, ECDF,
          KS_bounds, pbox_from_ecdf_bundle, Staircase) with steps-3 … steps+2 points, ties, duplicates, unequal masses, compared
          with independent references (`ref_bundle`, `ref_normalise`).
+round 7: `state_stream` (41 calls under np.errstate(all='raise'), under warnings escalated to errors, and under
+         Params.steps = 40 / 100 / 320: same value, or well formed with exactly the configured number of steps, or raises;
+         values identical after restoring), `alias_stream` (p-boxes built from caller-owned float64 buffers of exactly `steps`
+         entries / column views / other lengths and dtypes: unchanged after the caller writes into his buffers; results never
+         alias operands), `types_stream` (float32/16, longdouble, Fraction, Decimal, ints beyond 2^53, float exponents equal
+         the float64 computation), leaves with a flat run in one bound only.
 """
 from __future__ import annotations
 import math, operator, json, os, itertools, time
@@ -192,6 +198,9 @@ def leaf_specs(rng, n_lib, n_int):
         ["dss", [[[1, 1], [2, 4]], [0.3, 0.7]]],
         ["ECDF", [[round(0.37 * i % 7.0, 4) for i in range(rng.choice([200, 201, 261]))], "float"]],
         ["ECDF", [[round(0.61 * i % 5.0, 4) for i in range(rng.choice([399, 1000, 1025]))], "float"]],
+        # a flat run in ONE bound that the other bound does not share
+        ["raw", [[[2.0, 200]], [[3.0 + 0.01 * i, 1] for i in range(200)]]], ["raw", [[[-5.0 + 0.02 * i, 1] for i in range(200)], [[0.0, 200]]]],
+        ["raw", [[[1.0, 120], [2.0, 80]], [[2.0 + 0.005 * i, 1] for i in range(200)]]],
         # thin but not degenerate, tiny magnitudes
         ["interval", [1.0, 1.0 + 1e-9]], ["interval", [2e-9, 8e-9]], ["interval", [-3e-7, 5e-7]],
         ["uniform", [[1.0, 1.0 + 1e-7], [1.0 + 2e-7, 1.0 + 3e-7]]], ["normal", [[5.0, 5.0 + 1e-6], [1e-7, 2e-7]]],
@@ -252,8 +261,10 @@ def wf_problems(p, real_moments=False):
         l = np.asarray(p.left, dtype=float).ravel(); r = np.asarray(p.right, dtype=float).ravel()
     except Exception as e:  # noqa
         return [("bounds-unreadable", repr(e)[:60])]
-    if len(l) != n or len(r) != n or int(getattr(p, "steps", -1)) != n:
+    if len(l) != n or len(r) != n:
         out.append(("steps", f"len(left)={len(l)} len(right)={len(r)} steps={getattr(p, 'steps', None)} configured={n}"))
+    if int(getattr(p, "steps", -1)) != n:
+        out.append(("steps-attribute", f"the steps attribute reads {getattr(p, 'steps', None)}; len(left)={len(l)}, configured={n}"))
     if np.isnan(l).any() or np.isnan(r).any():
         out.append(("nan", f"{int(np.isnan(l).sum())} NaN in left, {int(np.isnan(r).sum())} in right"))
         return out
@@ -1144,6 +1155,9 @@ def run(ctx: core.Check):
     sequence_stream(ctx)
     edge_stream(ctx)
     grid_stream(ctx)
+    state_stream(ctx)
+    alias_stream(ctx)
+    types_stream(ctx)
 
     # ---- (c) moment stream results ---------------------------------------------------------------
     mres = masync.get(timeout=3000)
@@ -1260,6 +1274,231 @@ def grid_stream(ctx):
         except BaseException as e:  # noqa
             ctx.fail({"node": "grid", "stream": "grid", "size": m, "check": "raises"}, {"size": m, "error": repr(e)[:120]},
                      f"an entry point of the probability-grid machinery raised on {m} well-formed points: {type(e).__name__}: {str(e)[:80]}")
+
+
+STATE_CALLS = None
+
+
+def state_calls():
+    from pyuncertainnumber import pba
+    from pyuncertainnumber.pba.pbox_abc import Staircase
+    I = pba.I
+    N = lambda: pba.normal([1, 2], [0.5, 1])
+    U = lambda: pba.uniform([1, 2], [3, 4])
+    return [
+        ("normal", N), ("uniform", U), ("interval", lambda: I(1, 3).to_pbox()), ("min_max", lambda: pba.min_max(0, 2)),
+        ("min_mean", lambda: pba.min_mean(0, 1)), ("mean_std", lambda: pba.mean_std(1, 0.5)), ("min_max_mean", lambda: pba.min_max_mean(0, 2, 1)),
+        ("min_max_mode", lambda: pba.min_max_mode(0, 2, 1)), ("min_max_median", lambda: pba.min_max_median(0, 2, 1)),
+        ("min_max_mean_std", lambda: pba.min_max_mean_std(0, 2, 1, 0.5)), ("pos_mean_std", lambda: pba.pos_mean_std(1, 0.5)),
+        ("from_percentiles", lambda: pba.from_percentiles({0: 0, 0.5: 1, 1: 4})),
+        ("stacking", lambda: pba.stacking([[1, 3], [2, 4], [0, 5]])), ("stacking weights", lambda: pba.stacking([[1, 3], [2, 4]], weights=[0.3, 0.7])),
+        ("DSS.to_pbox", lambda: pba.DSS([[1, 3], [2, 4]], [0.4, 0.6]).to_pbox()),
+        ("ECDF 3 values", lambda: pba.ECDF(np.array([1.0, 2.0, 4.0]))), ("ECDF 500 values", lambda: pba.ECDF(np.sin(np.arange(500.0)))),
+        ("KS_bounds", lambda: pba.KS_bounds(np.array([1.0, 2.0, 4.0, 5.0]), alpha=0.05, display=False, output_type="pbox")),
+        ("Staircase short lists", lambda: Staircase(left=[1, 2, 3], right=[2, 3, 4])),
+        ("Staircase long arrays", lambda: Staircase(left=np.arange(1000.0), right=np.arange(1000.0) + 1)),
+        ("exponential_by_lambda", lambda: pba.exponential_by_lambda([1, 2])), ("Distribution.to_pbox", lambda: pba.D("norm", (0, 1)).to_pbox()),
+        ("add/f", lambda: N() + U()), ("add/p", lambda: N().add(U(), dependency="p")), ("mul/i", lambda: N().mul(U(), dependency="i")),
+        ("mul/f straddling", lambda: pba.normal([-1, 1], 1) * U()), ("neg", lambda: -U()), ("number ops", lambda: U() * 2 + 1),
+        ("exp", lambda: U().exp()), ("sqrt", lambda: U().sqrt()), ("log", lambda: U().log()), ("sin", lambda: U().sin()), ("tanh", lambda: U().tanh()),
+        ("envelope", lambda: pba.envelope(N(), U())), ("imposition", lambda: pba.imposition(N(), pba.uniform([0, 1], [3, 4]))),
+        ("reciprocal", lambda: U().reciprocal()), ("div/f", lambda: N() / U()), ("pow 2", lambda: U() ** 2), ("pow 2.0", lambda: U() ** 2.0),
+        ("condensation", lambda: N().condensation(5)), ("min/f", lambda: N().min(U())), ("max/p", lambda: N().max(U(), method="p")),
+    ]
+
+
+def state_stream(ctx):
+    """process-wide state: floating-point error handling, warnings escalated to errors, and the public discretisation
+    (Params.steps / Params.p_values).  A call made under another state gives the same value as under the defaults, or a
+    well-formed value with exactly the configured number of steps, or raises; afterwards everything reads as before."""
+    import warnings
+    from pyuncertainnumber.pba.params import Params
+    from pyuncertainnumber.pba.context import get_current_dependency
+    calls = state_calls()
+
+    def run_all(tag):
+        out = {}
+        for name, f in calls:
+            ctx.count(("state", tag, name), True, "state:" + tag)
+            try:
+                out[name] = f()
+            except BaseException as e:  # noqa
+                out[name] = ("raised", type(e).__name__)
+                ctx.bump(f"state:{tag}:raised")
+        return out
+
+    def canon(v):
+        return None if isinstance(v, tuple) else (np.asarray(v.left, float).tobytes(), np.asarray(v.right, float).tobytes())
+
+    base = run_all("default")
+    for name, v in base.items():
+        if isinstance(v, tuple):
+            ctx.fail({"node": "state", "stream": "state", "name": name, "check": "raises"}, {"call": name}, f"{name} raised {v[1]} under the default settings")
+    dep0, err0 = get_current_dependency(), np.geterr()
+    grid0 = (Params.steps, Params.p_values, Params.p_lboundary, Params.p_hboundary)
+    # (i) escalated floating-point errors / warnings: same value or an exception, never another value
+    for tag in ("errstate-raise", "warnings-error"):
+        try:
+            if tag == "errstate-raise":
+                with np.errstate(all="raise"):
+                    got = run_all(tag)
+            else:
+                with warnings.catch_warnings():
+                    warnings.simplefilter("error")
+                    got = run_all(tag)
+        finally:
+            warnings.filterwarnings("ignore")
+        for name, v in got.items():
+            if isinstance(v, tuple) or isinstance(base[name], tuple):
+                continue
+            report_problems(ctx, wf_problems(v), {"node": "state", "stream": "state", "name": name, "state": tag}, {"call": name, "state": tag}, f"{name} under {tag}")
+            if canon(v) != canon(base[name]):
+                ctx.fail({"node": "state", "stream": "state", "name": name, "state": tag, "check": "value-depends-on-error-state"},
+                         {"call": name, "state": tag}, f"{name} returned different bounds under {tag} than under the default settings")
+    # (ii) another discretisation
+    for st in (40, 320, 100):
+        try:
+            Params.steps = st
+            Params.p_values = np.linspace(Params.p_lboundary, Params.p_hboundary, st)
+            got = run_all(f"steps-{st}")
+            probs = {name: wf_problems(v) for name, v in got.items() if not isinstance(v, tuple)}
+        finally:
+            Params.steps, Params.p_values, Params.p_lboundary, Params.p_hboundary = grid0
+        for name, pr in probs.items():
+            report_problems(ctx, pr, {"node": "state", "stream": "changed-grid", "name": name, "steps": st}, {"call": name, "Params.steps": st},
+                            f"{name} with Params.steps = {st}")
+    # afterwards: the ambient state and the values are what they were
+    if get_current_dependency() != dep0 or np.geterr() != err0 or Params.steps != grid0[0] or not np.array_equal(Params.p_values, grid0[1]):
+        ctx.fail({"node": "state", "stream": "state", "check": "ambient-state-changed"}, {}, "dependency context / numpy error state / Params differ after the state stream")
+    again = run_all("restored")
+    for name, v in again.items():
+        if canon(v) != canon(base[name]):
+            ctx.fail({"node": "state", "stream": "state", "name": name, "state": "restored", "check": "value-differs-after-restoring"},
+                     {"call": name}, f"{name} gives different bounds after the settings were restored")
+        elif not isinstance(v, tuple):
+            report_problems(ctx, wf_problems(v), {"node": "state", "stream": "state", "name": name, "state": "restored"}, {"call": name}, f"{name} after restoring the settings")
+
+
+def alias_stream(ctx):
+    """caller-visible aliasing: a p-box built from the caller's arrays (float64, exactly the configured number of steps,
+    contiguous or a strided column) must own its bounds — writing into the caller's buffers afterwards must not change it;
+    results must not share memory with operands either"""
+    from pyuncertainnumber import pba
+    from pyuncertainnumber.pba.pbox_abc import Staircase, Leaf
+    n, _, _ = params()
+    I = pba.I
+
+    def fresh():
+        M = np.empty((n, 2))
+        M[:, 0] = np.linspace(0, 1, n); M[:, 1] = np.linspace(0.5, 2, n)
+        return {"contiguous": (np.linspace(0, 1, n), np.linspace(0.5, 2, n), None), "column view": (M[:, 0], M[:, 1], M),
+                "longer": (np.linspace(0, 1, 3 * n + 1), np.linspace(0.5, 2, 3 * n + 1), None), "shorter": (np.linspace(0, 1, n - 1), np.linspace(0.5, 2, n - 1), None),
+                "float32": (np.linspace(0, 1, n).astype(np.float32), np.linspace(0.5, 2, n).astype(np.float32), None)}
+
+    BUILD = [
+        ("Staircase(left=buf, right=buf2)", lambda L, R: Staircase(left=L, right=R)),
+        ("Staircase(..., mean, var given)", lambda L, R: Staircase(left=L, right=R, mean=I(0.3, 1.5), var=I(0, 1))),
+        ("Leaf(left=buf, right=buf2)", lambda L, R: Leaf(left=L, right=R, mean=I(0.3, 1.5), var=I(0, 1))),
+        ("Staircase(left=buf, right=buf) one buffer twice", lambda L, R: Staircase(left=L, right=L)),
+        ("stacking(I(buf, buf2))", lambda L, R: pba.stacking(I(L, R))),
+        ("DSS(array, masses array)", lambda L, R: pba.DSS(np.stack([L, R], axis=1), np.full(len(L), 1.0 / len(L))).to_pbox()),
+        ("ECDF(buf)", lambda L, R: pba.ECDF(L)),
+    ]
+    for kind in fresh():
+        for name, build in BUILD:
+            L, R, M = fresh()[kind]
+            ctx.count(("alias", name, kind), True, "aliasing")
+            try:
+                v = build(L, R)
+            except BaseException as e:  # noqa
+                ctx.bump("aliasing:raised")
+                continue
+            probs = wf_problems(v)
+            snap = snapshot_safe(v)
+            shared = any(np.shares_memory(a, b) for a in (v.left, v.right) for b in (L, R))
+            # the caller re-uses his buffers
+            L += 5.0
+            R[:] = -1.0
+            if M is not None:
+                M[::2, :] = 99.0
+            now = snapshot_safe(v)
+            if now != snap or shared:
+                ctx.fail({"node": "alias", "stream": "aliasing", "name": name, "buffers": kind, "check": "changes-with-callers-buffer"},
+                         {"call": name, "buffers": kind, "shares_memory": bool(shared), "after": wf_problems(v)},
+                         f"{name} [{kind} buffers]: the returned p-box {'shares memory with' if shared else 'changed after writing into'} the caller's arrays "
+                         f"(it now reads: {[c for c, _ in wf_problems(v)] or 'well formed, other values'})")
+            report_problems(ctx, probs, {"node": "alias", "stream": "aliasing", "name": name, "buffers": kind}, {"call": name, "buffers": kind}, name)
+    # results versus operands
+    X = pba.normal([1, 2], [0.5, 1]); Y = pba.uniform([1, 2], [3, 4])
+    sx, sy = snapshot_safe(X), snapshot_safe(Y)
+    OPS_ = [("0 + X", lambda: 0 + X), ("X + 0", lambda: X + 0), ("X * 1", lambda: X * 1), ("1 * X", lambda: 1 * X), ("X - 0", lambda: X - 0),
+            ("X / 1", lambda: X / 1), ("X ** 1", lambda: X ** 1), ("-(-X)", lambda: -(-X)), ("sum([X])", lambda: sum([X])),
+            ("envelope(X, X)", lambda: pba.envelope(X, X)), ("imposition(X, X)", lambda: pba.imposition(X, X)), ("envelope(X, Y)", lambda: pba.envelope(X, Y)),
+            ("X.add(Y,'p')", lambda: X.add(Y, dependency="p")), ("X.mul(Y,'f')", lambda: X.mul(Y, dependency="f")), ("X.min(Y)", lambda: X.min(Y)),
+            ("X.exp()", lambda: X.exp()), ("stacking(X.to_interval())", lambda: pba.stacking(X.to_interval()))]
+    for name, f in OPS_:
+        ctx.count(("alias-op", name), True, "aliasing")
+        try:
+            v = f()
+        except BaseException as e:  # noqa
+            ctx.bump("aliasing:raised")
+            continue
+        report_problems(ctx, wf_problems(v), {"node": "alias", "stream": "aliasing", "name": name}, {"call": name}, name)
+        if v is X or v is Y or any(np.shares_memory(a, b) for a in (v.left, v.right) for b in (X.left, X.right, Y.left, Y.right)):
+            ctx.fail({"node": "alias", "stream": "aliasing", "name": name, "check": "result-aliases-operand"}, {"call": name, "is_operand": v is X or v is Y},
+                     f"{name}: the result {'IS the operand object' if (v is X or v is Y) else 'shares memory with an operand'}")
+    if snapshot_safe(X) != sx or snapshot_safe(Y) != sy:
+        ctx.fail({"node": "alias", "stream": "aliasing", "check": "operand-changed"}, {}, "an operand of the aliasing stream was modified by an operation")
+
+
+def types_stream(ctx):
+    """numeric types: reduced / extended precision arrays, big Python ints, Fraction, Decimal, float exponents — the result
+    equals the float64 computation of the same values"""
+    from pyuncertainnumber import pba
+    from pyuncertainnumber.pba.pbox_abc import Staircase
+    from fractions import Fraction
+    from decimal import Decimal
+    n, _, _ = params()
+    base_l = np.linspace(0.1, 3.3, n); base_r = base_l + 0.7
+    Y = pba.uniform([1, 2], [3, 4])
+    OPS_ = [("itself", lambda p: p), ("* 3 + 1", lambda p: p * 3 + 1), ("add/f", lambda p: p + Y), ("mul/p", lambda p: p.mul(Y, dependency="p")),
+            ("exp", lambda p: p.exp()), ("neg", lambda p: -p), ("** 2", lambda p: p ** 2)]
+    KINDS = [("float32", lambda a: a.astype(np.float32)), ("float16", lambda a: a.astype(np.float16)), ("longdouble", lambda a: a.astype(np.longdouble)),
+             ("Fraction list", lambda a: [Fraction(float(x)) for x in a]), ("Decimal list", lambda a: [Decimal(float(x)) for x in a]),
+             ("big ints", lambda a: [int(2 ** 53 + 1 + 4 * i) for i in range(len(a))]), ("int64", lambda a: (a * 10).astype(np.int64)),
+             ("uint16", lambda a: (a * 10).astype(np.uint16))]
+    for kname, conv in KINDS:
+        try:
+            L, R = conv(base_l), conv(base_r)
+            L64, R64 = np.array([float(x) for x in L]), np.array([float(x) for x in R])
+        except BaseException:  # noqa
+            continue
+        for oname, op in OPS_:
+            ctx.count(("types", kname, oname), True, "numeric-types")
+            try:
+                want = op(Staircase(left=L64, right=R64))
+            except BaseException:  # noqa
+                continue
+            try:
+                got = op(Staircase(left=L, right=R))
+            except BaseException as e:  # noqa
+                ctx.bump("numeric-types:raised")       # refusing a type is acceptable
+                continue
+            report_problems(ctx, wf_problems(got), {"node": "types", "stream": "numeric-types", "kind": kname, "op": oname}, {"kind": kname, "op": oname}, f"{kname} bounds, {oname}")
+            sc = float(max(np.max(np.abs(want.left)), np.max(np.abs(want.right)), 1e-300))
+            if not (np.allclose(got.left, want.left, rtol=0, atol=64 * core.ulp(sc)) and np.allclose(got.right, want.right, rtol=0, atol=64 * core.ulp(sc))):
+                ctx.fail({"node": "types", "stream": "numeric-types", "kind": kname, "op": oname, "check": "differs-from-float64"}, {"kind": kname, "op": oname},
+                         f"Staircase from {kname} bounds, {oname}: the result differs from the float64 computation of the same values "
+                         f"(max difference {float(max(np.max(np.abs(got.left - want.left)), np.max(np.abs(got.right - want.right)))):.3g})")
+    for ename, e in (("2.0", 2.0), ("np.float64(2)", np.float64(2)), ("np.int32(2)", np.int32(2)), ("np.float32(3)", np.float32(3))):
+        ctx.count(("types", "exponent", ename), True, "numeric-types")
+        try:
+            a, b = Y ** e, Y ** int(e)
+        except BaseException:  # noqa
+            continue
+        if not (np.array_equal(a.left, b.left) and np.array_equal(a.right, b.right)):
+            ctx.fail({"node": "types", "stream": "numeric-types", "kind": "exponent", "op": ename, "check": "differs-from-float64"}, {"exponent": ename},
+                     f"Y ** {ename} differs from Y ** {int(e)}")
 
 
 def edge_stream(ctx):
